@@ -138,6 +138,67 @@ pub fn check_case(c: &Case) -> CaseResult {
     r
 }
 
+/// names across an edit: the export `which` of the all-names module is retargeted with
+/// `replace_exported_func`; the original function (recognised by its `i32.const K; drop` prologue)
+/// is still emitted and must still carry its input name, and the function behind the export now
+/// must not carry a name that the input gave to another function
+pub fn check_replace(c: &Case) -> CaseResult {
+    let mut r = CaseResult::default();
+    let which = c.cfg["replace_export"].as_str().unwrap_or("a").to_string();
+    let with_gc = c.cfg["gc"].as_bool().unwrap_or(false);
+    r.valid_input = true;
+    let a = match wmodel::decode(&c.wasm) {
+        Ok(a) => a,
+        Err(_) => return r,
+    };
+    let out = std::panic::catch_unwind(std::panic::AssertUnwindSafe(|| -> Option<Vec<u8>> {
+        let mut m = parse(&c.wasm, &Cfg::default()).ok()?;
+        let fid = m.exports.get_func(&which).ok()?;
+        m.replace_exported_func(fid, |(b, _)| {
+            b.unreachable();
+        })
+        .ok()?;
+        // keep the original reachable: export it under another name
+        m.exports.add("kept-original", fid);
+        if with_gc {
+            walrus::passes::gc::run(&mut m);
+        }
+        Some(m.emit_wasm())
+    }));
+    let out = match out {
+        Ok(Some(o)) => o,
+        _ => return r, // panics and refusals are C02's / C18's
+    };
+    r.transitions = 4;
+    r.nontrivial = true;
+    r.digests.push(wmodel::fnv(&out));
+    let b = match wmodel::decode(&out) {
+        Ok(b) => b,
+        Err(_) => return r,
+    };
+    let orig_idx = match a.exports.iter().find(|e| e.name == which) {
+        Some(e) => e.index,
+        None => return r,
+    };
+    let marker = wmodel::iso::func_marker(&a, orig_idx);
+    let want = a.names.funcs.get(&orig_idx).cloned();
+    let kept = b.exports.iter().find(|e| e.name == "kept-original").map(|e| e.index);
+    let newf = b.exports.iter().find(|e| e.name == which).map(|e| e.index);
+    if let (Some(k), Some(w)) = (kept, &want) {
+        if marker.is_some() && wmodel::iso::func_marker(&b, k) == marker && b.names.funcs.get(&k) != Some(w) {
+            r.violations.push(Violation::new("C13", "name-lost:function:after-replace-exported", format!("the function exported as {:?} was named {:?}; after replace_exported_func it is still emitted but named {:?}", which, w, b.names.funcs.get(&k)), c));
+        }
+    }
+    if let Some(n) = newf {
+        if let Some(g) = b.names.funcs.get(&n) {
+            if a.names.funcs.values().any(|x| x == g) {
+                r.violations.push(Violation::new("C13", "name-migrated:function:after-replace-exported", format!("the function newly built for export {:?} carries the input name {:?} of another function", which, g), c));
+            }
+        }
+    }
+    r
+}
+
 pub fn run(args: &Args) -> i32 {
     let mut ev = Ev::new("C13");
     if let Some(p) = &args.replay {
@@ -149,8 +210,8 @@ pub fn run(args: &Args) -> i32 {
             }
         };
         ev.evaluations = 1;
-        let v = check_case(&case).violations;
-        return finish(args, ev, v, &|c| check_case(c).violations);
+        let v = recheck(&case);
+        return finish(args, ev, v, &recheck);
     }
     let ms = crate::props::families::members(&["names", "locals-named", "fixtures"], args, &mut ev);
     let mut cases = vec![];
@@ -161,10 +222,29 @@ pub fn run(args: &Args) -> i32 {
     }
     ev.rule = "every subset of the 9 name subsections (x module shapes in the thorough tier) on modules whose functions are permuted by walrus's size sort, every declaration order of <= 3 named locals over 4 types x used subsets x 0-2 params, plus all fixtures, x {no pass, gc}: \
         the output name section is decoded with wasmparser 0.259 and every name is traced back to the input entity through the iso maps (forced by exports / markers, never by names). \
+        plus names across an edit: each exported function of the all-names module retargeted with replace_exported_func (with and without gc), the original - recognised by its marker prologue - keeps its name and the new function takes none. \
         non-trivial = input has a name section and walrus renumbered something"
         .into();
     ev.bounds = json!({"tier": args.tier.s()});
     ev.assumptions = vec!["iso maps identify entities; tolerated: names of unused locals, label/field/tag subsections, merged types carrying one of their names".into()];
-    let viol = run_sweep(args, &mut ev, &cases, &check_case);
-    finish(args, ev, viol, &|c| check_case(c).violations)
+    let mut viol = run_sweep(args, &mut ev, &cases, &check_case);
+    let mut rc = vec![];
+    for shape in if args.tier == Tier::Quick { vec![0usize] } else { vec![0usize, 1, 2] } {
+        for mask in [0x1ffu32, 0b000000010, 0b000000110] {
+            for which in ["a", "b", "c"] {
+                for gc in [false, true] {
+                    rc.push(Case { family: "names-edit".into(), coords: format!("shape={} mask={:09b} replace_exported_func({}) gc={}", shape, mask, which, gc), wasm: wgen::families::build_names(shape, mask), cfg: json!({"replace_export": which, "gc": gc}) });
+                }
+            }
+        }
+    }
+    viol.extend(run_sweep(args, &mut ev, &rc, &check_replace));
+    finish(args, ev, viol, &recheck)
+}
+
+fn recheck(c: &Case) -> Vec<Violation> {
+    if c.cfg.get("replace_export").is_some() {
+        return check_replace(c).violations;
+    }
+    check_case(c).violations
 }
